@@ -201,6 +201,147 @@ theorem walk_iff_reaches {ss : SymSet} {x : Ind} (hw : WF ss x) (l : Locus) :
     | refl => exact h1
     | step _ ha ih => exact h3 _ ih _ ha
 
+/-- invariant of the iterator: visited loci and frontier hold reachable loci only, the entry point
+    is among them, the arguments of every visited locus are visited or in the frontier, every
+    visited locus precedes the whole frontier, the visited loci are in increasing order -/
+structure FrontInv (x : Ind) (F acc : List Locus) : Prop where
+  start : x.best ∈ acc ∨ x.best ∈ F
+  sound : ∀ l, (l ∈ acc ∨ l ∈ F) → Reaches x x.best l
+  inside : ∀ l ∈ F, Inside x l
+  closed : ∀ m ∈ acc, ∀ a ∈ (x.gene m.idx m.cat).argLoci, a ∈ acc ∨ a ∈ F
+  below : ∀ a ∈ acc, ∀ l ∈ F, LLt a l
+  sorted : acc.Pairwise LLt
+
+theorem frontierFrom_closed {ss : SymSet} {x : Ind} (hw : WF ss x) :
+    ∀ (f : Nat) (F acc : List Locus) (k : Nat), FrontInv x F acc →
+      (∀ l ∈ F, k ≤ l.idx * x.cols + l.cat) → x.rows * x.cols ≤ f + k →
+      x.best ∈ frontierFrom less x f F acc ∧
+      (∀ l ∈ frontierFrom less x f F acc, Reaches x x.best l) ∧
+      (∀ m ∈ frontierFrom less x f F acc, ∀ a ∈ (x.gene m.idx m.cat).argLoci,
+        a ∈ frontierFrom less x f F acc) ∧
+      (frontierFrom less x f F acc).Pairwise LLt := by
+  -- when the frontier is empty the visited loci are closed
+  have done_ : ∀ (F acc : List Locus), FrontInv x F acc → (∀ l, l ∉ F) →
+      x.best ∈ acc ∧ (∀ l ∈ acc, Reaches x x.best l) ∧
+      (∀ m ∈ acc, ∀ a ∈ (x.gene m.idx m.cat).argLoci, a ∈ acc) ∧ acc.Pairwise LLt := by
+    intro F acc hv hF
+    refine ⟨?_, fun l hl => hv.sound l (Or.inl hl), ?_, hv.sorted⟩
+    · rcases hv.start with h | h
+      · exact h
+      · exact absurd h (hF _)
+    · intro m hm a ha
+      rcases hv.closed m hm a ha with h | h
+      · exact h
+      · exact absurd h (hF _)
+  intro f
+  induction f with
+  | zero =>
+    intro F acc k hv hk hf
+    simp only [frontierFrom]
+    apply done_ F acc hv
+    intro l hl
+    have := key_bound (hv.inside l hl)
+    have := hk l hl
+    omega
+  | succ f ih =>
+    intro F acc k hv hk hf
+    simp only [frontierFrom]
+    cases hm : minL less F with
+    | none =>
+      simp only []
+      apply done_ F acc hv
+      intro l hl
+      rw [minL_none.1 hm] at hl
+      simp at hl
+    | some m =>
+      simp only []
+      obtain ⟨hmem, hmin⟩ := minL_some hless hm
+      have hmin' : ∀ l ∈ F, l ≠ m → LLt m l := by
+        intro l hl hne
+        rcases LLt.trichotomy m l with h | h | h
+        · exact h
+        · exact absurd h.symm hne
+        · exact absurd h (hmin l hl)
+      have hmi := hv.inside m hmem
+      have hargs : ∀ a ∈ (x.gene m.idx m.cat).argLoci, LLt m a ∧ Inside x a := by
+        intro a ha
+        have := argLoci_inside (hw.genes m.idx hmi.1 m.cat hmi.2) ha
+        exact ⟨Or.inl this.1, this.2.1, this.2.2⟩
+      have hF' : ∀ l, l ∈ F.filter (fun l => l != m) ++ (x.gene m.idx m.cat).argLoci →
+          (l ∈ F ∧ l ≠ m) ∨ l ∈ (x.gene m.idx m.cat).argLoci := by
+        intro l hl
+        simp only [List.mem_append, List.mem_filter, bne_iff_ne] at hl
+        exact hl
+      have hgt : ∀ l, l ∈ F.filter (fun l => l != m) ++ (x.gene m.idx m.cat).argLoci → LLt m l := by
+        intro l hl
+        rcases hF' l hl with ⟨h1, h2⟩ | h
+        · exact hmin' l h1 h2
+        · exact (hargs l h).1
+      apply ih _ _ (m.idx * x.cols + m.cat + 1)
+      · refine ⟨?_, ?_, ?_, ?_, ?_, ?_⟩
+        · rcases hv.start with h | h
+          · exact Or.inl (by simp [h])
+          · by_cases hb : x.best = m
+            · exact Or.inl (by simp [hb])
+            · exact Or.inr (by simp only [List.mem_append, List.mem_filter, bne_iff_ne]
+                               exact Or.inl ⟨h, hb⟩)
+        · intro l hl
+          rcases hl with hl | hl
+          · simp only [List.mem_append, List.mem_singleton] at hl
+            rcases hl with hl | rfl
+            · exact hv.sound l (Or.inl hl)
+            · exact hv.sound _ (Or.inr hmem)
+          · rcases hF' l hl with ⟨h1, _⟩ | h
+            · exact hv.sound l (Or.inr h1)
+            · exact Reaches.step (hv.sound m (Or.inr hmem)) h
+        · intro l hl
+          rcases hF' l hl with ⟨h1, _⟩ | h
+          · exact hv.inside l h1
+          · exact (hargs l h).2
+        · intro m' hm' a ha
+          simp only [List.mem_append, List.mem_singleton] at hm'
+          rcases hm' with hm' | rfl
+          · rcases hv.closed m' hm' a ha with h | h
+            · exact Or.inl (by simp [h])
+            · by_cases hb : a = m
+              · exact Or.inl (by simp [hb])
+              · exact Or.inr (by simp only [List.mem_append, List.mem_filter, bne_iff_ne]
+                                 exact Or.inl ⟨h, hb⟩)
+          · exact Or.inr (by simp only [List.mem_append]; exact Or.inr ha)
+        · intro a ha l hl
+          simp only [List.mem_append, List.mem_singleton] at ha
+          rcases ha with ha | rfl
+          · exact LLt.trans (hv.below a ha m hmem) (hgt l hl)
+          · exact hgt l hl
+        · rw [List.pairwise_append]
+          refine ⟨hv.sorted, by simp, ?_⟩
+          intro a ha b hb
+          simp only [List.mem_singleton] at hb
+          subst hb
+          exact hv.below a ha _ hmem
+      · intro l hl
+        have := key_lt hmi.2 (hgt l hl)
+        omega
+      · have := hk m hmem
+        omega
+
+/-- `for (i = begin(); i != end(); ++i)` visits exactly the loci reached from the entry point, each
+    once, in increasing order. -/
+theorem frontier_iff_reaches {ss : SymSet} {x : Ind} (hw : WF ss x) :
+    (∀ l, l ∈ frontierFrom less x (x.rows * x.cols) [x.best] [] ↔ Reaches x x.best l) ∧
+    (frontierFrom less x (x.rows * x.cols) [x.best] []).Pairwise LLt := by
+  have hv : FrontInv x [x.best] [] :=
+    ⟨Or.inr (by simp), fun l hl => by simp at hl; subst hl; exact Reaches.refl,
+     fun l hl => by simp at hl; subst hl; exact hw.best,
+     fun m hm => by simp at hm, fun a ha => by simp at ha, List.Pairwise.nil⟩
+  obtain ⟨h1, h2, h3, h4⟩ := frontierFrom_closed hless hw (x.rows * x.cols) [x.best] [] 0 hv
+    (fun _ _ => Nat.zero_le _) (by omega)
+  refine ⟨fun l => ⟨h2 l, ?_⟩, h4⟩
+  intro hr
+  induction hr with
+  | refl => exact h1
+  | step _ ha ih => exact h3 _ ih _ ha
+
 end
 
 end Vita.C02
